@@ -285,7 +285,16 @@ def body():
             for k in range(0, len(behs), CHUNK):
                 cf = sc.path("trace-%d.ndjson" % k)
                 json.dump([{k_: b[k_] for k_ in ("ng", "buf", "lag", "steps", "pre", "fixture", "gerseed") if k_ in b} for b in behs[k:k + CHUNK]], open(bf, "w"))
-                V.run_driver(drv, ["-in", bf, "-out", cf])
+                try:
+                    V.run_driver(drv, ["-in", bf, "-out", cf])
+                except V.NodePanic as e:
+                    # the syncer's own goroutine died of a panic: the node is gone, no query is answered any more
+                    res.add_violation("NodeGaveUp: %s (while replaying behaviours %d..%d)" % (e, k + 1, min(k + CHUNK, len(behs))),
+                                      dict(behaviours=[{k_: b[k_] for k_ in ("ng", "buf", "lag", "steps", "pre", "fixture", "gerseed") if k_ in b}
+                                                       for b in behs[k:k + CHUNK]], panic=str(e)))
+                    res.coverage = dict(explanation="the code under test panicked during the replay", evaluations=0, distinct_nontrivial=0,
+                                        states=mc["distinct"], transitions=mc["generated"], traces_validated_against_impl=0, samples=behs[:1])
+                    res.finish()
                 whole.write(open(cf).read())
                 os.remove(cf)
         # (C) judge
